@@ -74,6 +74,16 @@ def gen(ctx):
             yield Case("RT", spec_cr(rng, W.rname(rng, n)), tags=("name-len",))
         yield Case("ENC", spec_cr(rng, W.rname(rng, n)), tags=("name-len",))
     yield Case("RT", spec_cr(rng, None), tags=("name-len",))
+    # names whose first / last bytes are what a "tidy-up" would strip or fold (round 5: trailing CR/LF removed on decode):
+    # the name is ANY 1-63 bytes without NUL that are valid UTF-8
+    for core_ in (b"reno", b"cubic", b"x", b""):
+        for pre in (b"", b" ", b"\t", b"\n", b"\r\n", b"\x7f", b"\x01", "\u00a0".encode(), "\ufeff".encode(), "\u2028".encode()):
+            for suf in (b"", b" ", b"\t", b"\n", b"\r", b"\r\n", b"\n\n", b"\x0b", b"\x0c", b"\x7f", b"\x01", "\u00a0".encode(), "\u2029".encode(), b".", b"/", b"\\"):
+                nm = pre + core_ + suf
+                if 1 <= len(nm) <= 63:
+                    yield Case("RT", spec_cr(rng, nm), tags=("name-edge-bytes",))
+    for nm in (b"RENO", b"Reno", b"reno", b"ren\xc3\xb6", b"reno\xcc\x88"):
+        yield Case("RT", spec_cr(rng, nm), tags=("name-edge-bytes",))
     yield Case("RT", spec_cr(rng, b"a\x00b"), tags=("name-nul",))
     yield Case("RT", spec_cr(rng, b"\x00"), tags=("name-nul",))
     for n in range(0, 256):
